@@ -44,7 +44,8 @@ def inv(x):
 def impl_report(pos, edges, crossing, want_plaquettes=True):
     """run the implementation; returns dict with the same keys (or 'exception')"""
     r = {}
-    lat = Lattice(pos.copy(), edges.copy(), crossing.copy())
+    pos_, edges_, crossing_, r["layout"] = layout_variant(pos, edges, crossing)
+    lat = Lattice(pos_, edges_, crossing_)
     r["lat"] = lat
     r["vectors"] = lat.edges.vectors
     r["adj"] = [[int(e) for e in row] for row in lat.vertices.adjacent_edges]
